@@ -1,6 +1,7 @@
 package rules
 
 import (
+	"go/constant"
 	"go/token"
 	"sort"
 	"strings"
@@ -15,6 +16,7 @@ func init() { Registry["C09"] = c09 }
 
 const (
 	batchPkg   = "pkg/slo-controller/noderesource/plugins/batchresource"
+	midPkg     = "pkg/slo-controller/noderesource/plugins/midresource"
 	resutilPkg = "pkg/slo-controller/noderesource/plugins/util"
 )
 
@@ -289,8 +291,12 @@ func c09(c *Ctx) {
 	if fn := c.Fn(resutilPkg, "", "CalculateBatchResourceByPolicy"); fn != nil {
 		c09mono(c, fn)
 	}
+	c09labels(c)
 	if fn := c.Fn(batchPkg, "Plugin", "Calculate"); fn != nil {
-		c09degrade(c, fn)
+		c09degrade(c, fn, batchPkg)
+		if mf := c.Fn(midPkg, "Plugin", "Calculate"); mf != nil {
+			c09degrade(c, mf, midPkg)
+		}
 	}
 	if fn := c.Fn(resutilPkg, "", "GetPodNUMARequestAndUsage"); fn != nil {
 		c09zones(c, fn)
@@ -661,10 +667,10 @@ func c09mono(c *Ctx, fn *ssa.Function) {
 	r.Floor("FLOW", "stores into the batch result", nst, 6)
 }
 
-func c09degrade(c *Ctx, fn *ssa.Function) {
+func c09degrade(c *Ctx, fn *ssa.Function, pkg string) {
 	r := c.R
-	r.Rule("PATH: in (*Plugin).Calculate the call of calculate is unreachable when isDegradeNeeded returned true; on that path the result comes from Reset() (directly or through an in-package wrapper such as degradeCalculate whose every return is Reset()); Reset marks every item it produces Reset=true")
-	const p = "(*" + load.Module + "/" + batchPkg + ".Plugin)."
+	r.Rule("PATH: in the batch and the mid plugin's (*Plugin).Calculate the call of calculate is unreachable when isDegradeNeeded returned true and unreachable without isDegradeNeeded having been evaluated at all (no mode or shortcut bypasses the staleness test: a stale metric must withdraw the resource whatever formula would be used); on the degraded path the result comes from Reset() (directly or through an in-package wrapper such as degradeCalculate whose every return is Reset()); Reset marks every item it produces Reset=true")
+	p := "(*" + load.Module + "/" + pkg + ".Plugin)."
 	deg := an.CallsTo(fn, false, p+"isDegradeNeeded")
 	calc := an.CallsTo(fn, false, p+"calculate")
 	key := fkey(fn) + "/degrade-gate"
@@ -673,7 +679,7 @@ func c09degrade(c *Ctx, fn *ssa.Function) {
 		return
 	}
 	reach := an.Explore(fn, nil, an.Facts{deg[0].Value(): an.True}, nil)
-	okGate := !reach.Reached(calc[0])
+	okGate := !reach.Reached(calc[0]) && mustPass(deg[0], calc[0])
 	// returns on that path must come from Reset(), directly or through an in-package wrapper that returns Reset()
 	var viaReset func(v ssa.Value, depth int) bool
 	viaReset = func(v ssa.Value, depth int) bool {
@@ -707,8 +713,8 @@ func c09degrade(c *Ctx, fn *ssa.Function) {
 			}
 		}
 	}
-	r.Check(okGate && okRet, "PATH", key, c.InstrPos(deg[0]), "with stale metrics only the degraded result is returned", sprintf("with isDegradeNeeded()==true: calculate reachable=%v, non-degraded return=%v", !okGate, !okRet))
-	if rs := c.Fn(batchPkg, "Plugin", "Reset"); rs != nil {
+	r.Check(okGate && okRet, "PATH", key, c.InstrPos(deg[0]), "with stale metrics only the degraded result is returned", sprintf("with isDegradeNeeded()==true (or never evaluated): calculate reachable=%v, non-degraded return=%v", !okGate, !okRet))
+	if rs := c.Fn(pkg, "Plugin", "Reset"); rs != nil {
 		// every store to a ResourceItem's Reset field in Reset() writes true, and there is at least one (items[i].Reset = true,
 		// or a composite literal {.., Reset: true} appended per resource name)
 		ok := false
@@ -879,4 +885,97 @@ func c09hostapps(c *Ctx) {
 			r.Unknown("FLOW", fkey(fn)+"/system-usage-includes-host-apps", c.Pos(fn.Pos()), "formula call not found")
 		}
 	}
+}
+
+// c09labels: a node's ratio label is honoured for every non-negative value, zero included.
+func c09labels(c *Ctx) {
+	r := c.R
+	r.Decides("a node ratio label that parses to a non-negative number - zero included - overrides the cluster value (a label of 0 means 'reclaim nothing'; dropping it publishes the cluster-wide amount on a node whose margin is its whole capacity)")
+	r.Rule("PATH(label boundary): in sloconfig.getNodeReclaimPercent no nil return is guarded by a comparison of the parsed ratio with 0 that also holds at equality (<=, ==, >= 0 and their mirrored forms); the rejection test is strictly 'below zero'; with the label present, parsed and not below zero the result is non-nil")
+	fn := c.Fn("pkg/util/sloconfig", "", "getNodeReclaimPercent")
+	if fn == nil {
+		return
+	}
+	var parse *ssa.Call
+	for _, cl := range an.Calls(fn, false) {
+		if call, ok := cl.(*ssa.Call); ok && an.ShortCallee(&call.Call) == "ParseFloat" {
+			parse = call
+		}
+	}
+	if parse == nil {
+		r.Unknown("PATH", fkey(fn)+"/zero-honoured", c.Pos(fn.Pos()), "the label is not parsed with strconv.ParseFloat: unknown idiom")
+		return
+	}
+	val := extract(parse, 0)
+	isZero := func(v ssa.Value) bool {
+		k, ok := v.(*ssa.Const)
+		if !ok || k.Value == nil {
+			return false
+		}
+		f, _ := constant.Float64Val(constant.ToFloat(k.Value))
+		return f == 0 && (k.Value.Kind() == constant.Float || k.Value.Kind() == constant.Int)
+	}
+	nTests, bad := 0, ""
+	facts := an.Facts{extract(parse, 1): an.Nil}
+	for _, b := range fn.Blocks {
+		for _, in := range b.Instrs {
+			bo, ok := in.(*ssa.BinOp)
+			if !ok {
+				continue
+			}
+			op := bo.Op
+			switch {
+			case bo.X == val && isZero(bo.Y):
+			case bo.Y == val && isZero(bo.X):
+				switch op { // mirror: 0 OP v
+				case token.LSS:
+					op = token.GTR
+				case token.LEQ:
+					op = token.GEQ
+				case token.GTR:
+					op = token.LSS
+				case token.GEQ:
+					op = token.LEQ
+				}
+			default:
+				continue
+			}
+			nTests++
+			// the outcome of "v OP 0" for a v that is not below zero is known only for < and >=
+			switch op {
+			case token.LSS:
+				facts[bo] = an.False
+			case token.GEQ:
+				facts[bo] = an.True
+			default:
+				bad = sprintf("%s: the parsed ratio is tested with '%s 0', which separates 0 from the positive values", c.InstrPos(bo), op)
+			}
+		}
+	}
+	for _, lk := range lookupsOf(fn, ".Labels") {
+		facts[extract(lk, 1)] = an.True
+	}
+	for _, b := range fn.Blocks {
+		for _, in := range b.Instrs {
+			if bo, ok := in.(*ssa.BinOp); ok && an.IsNilConst(bo.Y) && strings.HasSuffix(an.Path(bo.X), ".Labels") {
+				if bo.Op == token.EQL {
+					facts[bo] = an.False
+				} else if bo.Op == token.NEQ {
+					facts[bo] = an.True
+				}
+			}
+		}
+	}
+	reach := an.Explore(fn, nil, facts, nil)
+	nonNil := true
+	n := 0
+	for _, ret := range reach.Returns() {
+		for _, alt := range reach.Alts(ret) {
+			n++
+			if an.IsNilConst(alt.Results[0]) {
+				nonNil = false
+			}
+		}
+	}
+	r.Check(nTests >= 1 && bad == "" && nonNil && n > 0, "PATH", fkey(fn)+"/zero-honoured", c.Pos(fn.Pos()), "only a ratio below zero is rejected", sprintf("a non-negative ratio label can be dropped (%d tests of the parsed value against 0; %s; nil reachable for a parsed, non-negative value=%v)", nTests, bad, !nonNil))
 }
